@@ -1,1 +1,119 @@
-/-! Property theorems for C12 (see /verif/DESIGN.md). Only property theorems and non-vacuity examples live here. -/
+import Proofs.C12
+import GoawkModel.C12Sites
+/-!
+# C12 — NoExec, NoFileWrites and NoFileReads confine every program
+
+Theorems about the I/O dispatch model `GoawkModel.C12` (one `step` per I/O operation of a program, the outside world as an
+effect log). All are for every flag setting, every start state satisfying the invariant (in particular the initial state),
+and every list of operations — no bound on length, names are arbitrary byte strings, OS answers are arbitrary.
+The tie to /repo is (a) `gen_matches` / `sites_guarded` over the regenerated call-site inventory and (b) the differential
+run of the real interpreter against `trace` in harness/c12.
+-/
+namespace GoawkModel.C12.Props
+open GoawkModel GoawkModel.C12
+
+/-- NoExec: no process is started, and no stream backed by a process is ever written, read or closed. -/
+theorem noexec_confines (f : Flags) (h : f.noExec = true) (s : St) (hs : Inv f s) (ops : List IoOp) :
+    ∀ e ∈ effects f s ops, e.process = false :=
+  fun e he => (effects_ok f s hs ops e he).1 h
+
+/-- NoFileWrites: no file is opened for writing (create / truncate / append) and no file stream is written or flushed. -/
+theorem nowrite_confines (f : Flags) (h : f.noWrites = true) (s : St) (hs : Inv f s) (ops : List IoOp) :
+    ∀ e ∈ effects f s ops, e.fileWrite = false :=
+  fun e he => (effects_ok f s hs ops e he).2.1 h
+
+/-- NoFileReads: no file is opened for reading — by `getline <`, as an operand of the pattern-action loop, or as an operand
+reached by un-redirected getline — and no file stream is read. -/
+theorem noread_confines (f : Flags) (h : f.noReads = true) (s : St) (hs : Inv f s) (ops : List IoOp) :
+    ∀ e ∈ effects f s ops, e.fileRead = false :=
+  fun e he => (effects_ok f s hs ops e he).2.2.1 h
+
+/-- the three together for a run from the initial state (empty stream table) -/
+theorem confined_from_start (f : Flags) (existing args : List Bytes) (recs : Nat) (ops : List IoOp) :
+    ∀ e ∈ effects f (St.init existing args recs) ops,
+      (f.noExec = true → e.process = false) ∧ (f.noWrites = true → e.fileWrite = false) ∧ (f.noReads = true → e.fileRead = false) :=
+  fun e he => let g := effects_ok f _ (inv_init f existing args recs) ops e he; ⟨g.1, g.2.1, g.2.2.1⟩
+
+/-- standard input stays available under NoFileReads: by the name "-" … -/
+theorem stdin_dash_available (f : Flags) (s : St) (h : find dash s.streams = none) :
+    (step f s (.getlineFile dash)).1 = [.useStdin] := by
+  simp [step, inFile, h]
+
+/-- … and as the default input when there are no operands. -/
+theorem stdin_default_available (f : Flags) (s : St) (h1 : s.cur = 0) (h2 : s.args = []) (h3 : s.hadFiles = false) :
+    (step f s .getline).1 = [.useStdin] := by
+  by_cases hz : s.stdinRecs = 0 <;> simp [step, nextLine, nextOperand, h1, h2, h3, hz]
+
+/-- writing to "-" is standard output under every flag setting -/
+theorem stdout_dash_available (f : Flags) (s : St) (ok : Bool) (h : find dash s.streams = none) :
+    (step f s (.printGt dash ok)).1 = [.useStdout] := by
+  simp [step, outFile, h]
+
+/-- every open goes through the configured open function (`p.openFile`) -/
+theorem all_opens_via_hook (f : Flags) (s : St) (hs : Inv f s) (ops : List IoOp) :
+    ∀ e ∈ effects f s ops, ∀ n m via ok, e = .open n m via ok → via = .configured := by
+  intro e he n m via ok heq
+  have := (effects_ok f s hs ops e he).2.2.2
+  subst heq
+  simpa [Effect.viaHook] using this
+
+/-- Each attempt ends the run with an error — every redirected form and system(): a `>`/`>>`/`|`/`getline <`/`| getline`
+on a name that is not already an open stream (and is not "-"), or any system(), under the flag that forbids it, yields
+exactly one effect, the error, and the run ends there whatever follows. -/
+theorem attempt_is_error_partial (f : Flags) (s : St) (op : IoOp) (rest : List IoOp) (e : Err)
+    (h : denied f s op = some e) : trace f s (op :: rest) = [[.error e]] :=
+  denied_trace f s op rest e h
+
+/-- … and an operand denied by NoFileReads ends the run when the pattern-action loop reaches it. -/
+theorem operand_attempt_is_error (f : Flags) (h : f.noReads = true) (s : St) (hc : s.cur = 0)
+    (ha : firstRegular s.args = true) (rest : List IoOp) : trace f s (.mainLoop :: rest) = [[.error .noFileReads]] := by
+  simp [trace, mainLoop_operand_denied f h s hc ha, Effect.isError]
+
+/-- The full statement also covers an operand reached by un-redirected getline. -/
+def AttemptIsError : Prop :=
+  ∀ (f : Flags) (s : St) (op : IoOp),
+    ((denied f s op).isSome ∨ ((op = .getline ∨ op = .mainLoop) ∧ f.noReads = true ∧ s.cur = 0 ∧ firstRegular s.args = true)) →
+    (step f s op).1.any Effect.isError = true
+
+def g121Flags : Flags := { noExec := false, noWrites := false, noReads := true, hook := true }
+def g121State : St := St.init [[105]] [[105]] 2      -- one operand "i", which exists
+
+/-- It is false of the code as it is (finding G12-1): the refused operand makes getline return -1 and the run goes on. -/
+theorem attempt_is_error_fails : ¬ AttemptIsError := by
+  intro h
+  have := h g121Flags g121State .getline (Or.inr ⟨Or.inl rfl, rfl, rfl, by decide⟩)
+  revert this
+  decide
+
+/-- what happens instead, for every state: the only effect is the soft failure, nothing is opened -/
+theorem getline_operand_soft (f : Flags) (h : f.noReads = true) (s : St) (hc : s.cur = 0)
+    (ha : firstRegular s.args = true) : (step f s .getline).1 = [.soft] :=
+  getline_operand_denied f h s hc ha
+
+/-! ### the regenerated inventory of OS-reaching call sites of package interp -/
+
+theorem gen_matches : Generated.C12IoSites.sites = expectedSites := by decide
+
+theorem gen_imports_match : Generated.C12IoSites.imports = expectedImports := by decide
+
+theorem gen_openfile_assignments_match : Generated.C12IoSites.openFileAssignments = expectedOpenFileAssignments := by decide
+
+/-- evaluated on the generated table itself: every process start / file open in the package is guarded (or sits in one of
+the three helpers all of whose call sites are guarded), and nothing else reaches the OS -/
+theorem sites_guarded : Generated.C12IoSites.sites.all siteGuarded = true := by decide
+
+/-! ### non-vacuity -/
+
+def exFlags : Flags := { noExec := true, noWrites := true, noReads := true, hook := false }
+def exOps : List IoOp := [.getlineFile dash, .printGt dash true, .close [120], .getline, .system [120] true, .printGt [111] true]
+
+example : Inv exFlags (St.init [] [] 1) := inv_init _ _ _ _
+example : effects exFlags (St.init [] [] 1) exOps = [.useStdin, .useStdout, .soft, .useStdin, .error .noExecSystem] := by decide
+example : denied exFlags (St.init [] [] 1) (.printGt [111] true) = some .noFileWrites := by decide
+example : effects { noExec := true, noWrites := false, noReads := true, hook := false } (St.init [] [] 1) [.printGt [111] true, .printPipe [111] true, .close [111]] =
+    [.open [111] .wrTrunc .configured true, .useStream [111] .outFile, .useStream [111] .outFile, .closeStream [111] .outFile] := by decide
+example : firstRegular g121State.args = true ∧ g121State.cur = 0 := by decide
+example : (step g121Flags g121State .mainLoop).1 = [.error .noFileReads] := by decide
+example : (Generated.C12IoSites.sites.length, Generated.C12IoSites.imports.length) = (14, 26) := by decide
+
+end GoawkModel.C12.Props
